@@ -1,20 +1,26 @@
-"""C20 worker: runs the REAL pydoctor option machinery.
+"""C20 worker: runs the REAL pydoctor option machinery (and, for spec validation, the running CPython).
 stdin: JSON list of cases; stdout: JSON list of observations (same order).
 
 case kinds
-  {"k": "e2e", "files": {name: text}, "runs": [argv, ...], "nofile_runs": [argv, ...]}
-      In a scratch cwd (mkdtemp outside /repo and /verif, removed afterwards) holding `files`,
-      Options.from_args(argv) for every argv of "runs"; then the files are removed and
-      Options.from_args(argv) for every argv of "nofile_runs" in the SAME cwd (so that paths resolve alike).
-      -> {"runs": [outcome...], "nofile_runs": [outcome...]}
-      outcome = {"exit": null | int | str, "exc": null | str, "opts": {attr: canonical} | null,
-                 "warnings": [str], "stderr": str}
-  {"k": "ns", ...same...}   like e2e but observes options.parse_args(argv) (the raw namespace, before the
-      typed container) -> outcome with "opts" = canonical vars(namespace)
-  {"k": "parse", "text": str}   PydoctorConfigParser.parse(StringIO(text)) (TOML then INI, sections looked up)
-      -> {"ok": {key: str | [str]}} (insertion order kept as list of pairs) | {"err": str}
-  {"k": "validate", "text": str}  the ValidatorParser of a fresh get_parser() on the text
-      -> {"ok": pairs, "warnings": [...]} | {"err": ...}
+  {"k": "quote", "t": str, "triple": bool}
+      -> {"dq": bool, "sq": bool, "tre": bool, "isq": bool, "unq": [tag, str]}
+         dq/sq: which alternative of _QUOTED_STR_REGEX matched; tre: _TRIPLE_QUOTED_STR_REGEX matched;
+         isq = is_quoted(t, triple); unq = unquote_str(t, triple): [0, value] | [1, ""] ValueError | [3, name] other exception
+  {"k": "pyspec", "t": str}          (CPython only, validates Spec/PyStrLit.v and Spec/PyListLit.v)
+      -> {"lit": [tag, str], "list": [tag, [str]], "repr": str, "printable": [code points of t that are printable and >= 128]}
+  {"k": "ini", "text": str}
+      -> {"view": [[section, [[key, value]...]]...] | null, "parse": {"ok": pairs} | {"err": str}}
+         view = what configparser made of the text; parse = IniConfigParser(CONFIG_SECTIONS, split).parse
+  {"k": "toml", "text": str}
+      -> {"view": tree | null, "parse": ...}     parse = TomlConfigParser(CONFIG_SECTIONS).parse
+  {"k": "validate", "data": pairs}
+      -> {"ok": pairs, "warnings": [str]}        ValidatorParser(<parser returning data>, get_parser()).parse
+  {"k": "e2e" | "ns", "files": {name: text}, "runs": [argv...], "nofile_runs": [argv...]}
+      In a scratch cwd (mkdtemp outside /repo and /verif, removed afterwards) holding `files`:
+      Options.from_args(argv) ("e2e") or options.parse_args(argv) ("ns", the raw namespace) for every argv of "runs";
+      then the files are removed and the same for every argv of "nofile_runs" in the SAME cwd.
+      -> {"runs": [outcome...], "nofile_runs": [outcome...], "views": {name: {"toml": tree|null, "ini": view|null}}}
+      outcome = {"exit": null | int, "exc": null | str, "opts": {attr: canonical} | null, "warnings": [str], "stderr": str}
 """
 import contextlib
 import enum
@@ -64,15 +70,46 @@ def one_run(fn, argv, cwd):
                 d = dict(vars(res))
             out['opts'] = {k: canon(v, cwd) for k, v in sorted(d.items())}
         except SystemExit as e:
-            out['exit'] = e.code if isinstance(e.code, int) or e.code is None else str(e.code)
-            if e.code is None:
-                out['exit'] = 0
+            out['exit'] = e.code if isinstance(e.code, int) else (0 if e.code is None else 1)
         except BaseException as e:  # noqa
             out['exc'] = type(e).__name__ + ': ' + str(e)[:300]
     out['warnings'] = [str(w.message) for w in caught
                        if not issubclass(w.category, (SyntaxWarning, DeprecationWarning))]
     out['stderr'] = err.getvalue()[-400:]
     return out
+
+
+def toml_tree(v, inside_list=False):
+    if isinstance(v, bool):
+        return [2, 1 if v else 0]
+    if isinstance(v, int) and abs(v) < 2 ** 60:
+        return [1, v]
+    if isinstance(v, str):
+        return [0, v]
+    if isinstance(v, list) and not inside_list:
+        return [3, [toml_tree(x, True) for x in v]]
+    if isinstance(v, dict) and not inside_list:
+        return [4, [[k, toml_tree(x)] for k, x in v.items()]]
+    return [5, 1 if v else 0, str(v)]
+
+
+def toml_view(text):
+    import toml
+    try:
+        data = toml.loads(text)
+    except Exception:
+        return None
+    return [[k, toml_tree(x)] for k, x in data.items()]
+
+
+def ini_view(text):
+    import configparser
+    cp = configparser.ConfigParser()
+    try:
+        cp.read_string(text)
+        return [[sec, [[k, v] for k, v in cp[sec].items()]] for sec in cp.sections()]
+    except Exception:
+        return None
 
 
 def run_e2e(case):
@@ -84,14 +121,16 @@ def run_e2e(case):
     old = os.getcwd()
     try:
         os.chdir(d)
+        views = {}
         for name, text in case.get('files', {}).items():
             with open(os.path.join(d, name), 'w', encoding='utf-8', newline='') as f:
                 f.write(text)
+            views[name] = {'toml': toml_view(text), 'ini': ini_view(text)}
         r1 = [one_run(fn, argv, d) for argv in case.get('runs', [])]
         for name in case.get('files', {}):
             os.unlink(os.path.join(d, name))
         r2 = [one_run(fn, argv, d) for argv in case.get('nofile_runs', [])]
-        return {'runs': r1, 'nofile_runs': r2}
+        return {'runs': r1, 'nofile_runs': r2, 'views': views}
     finally:
         os.chdir(old)
         shutil.rmtree(d, ignore_errors=True)
@@ -102,20 +141,79 @@ def pairs(d):
 
 
 def run_parse(case):
-    from pydoctor import options
+    from pydoctor import options, _configparser as C
+    text = case['text']
+    if case['k'] == 'ini':
+        view = ini_view(text)
+        p = C.IniConfigParser(options.CONFIG_SECTIONS, split_ml_text_to_list=True)
+    else:
+        view = toml_view(text)
+        p = C.TomlConfigParser(options.CONFIG_SECTIONS)
+    with warnings.catch_warnings():
+        warnings.simplefilter('ignore')
+        try:
+            res = {'ok': pairs(p.parse(io.StringIO(text)))}
+        except BaseException as e:  # noqa
+            res = {'err': type(e).__name__ + ': ' + str(e)[:200]}
+    return {'view': view, 'parse': res}
+
+
+def run_validate(case):
+    from pydoctor import options, _configparser as C
+    from configargparse import ConfigFileParser
+    data = dict((k, v) for k, v in case['data'])
+
+    class Fixed(ConfigFileParser):
+        def parse(self, stream):
+            return dict(data)
+
+        def get_syntax_description(self):
+            return ''
+    vp = C.ValidatorParser(Fixed(), options.get_parser())
     with warnings.catch_warnings(record=True) as caught:
         warnings.simplefilter('always')
         try:
-            if case['k'] == 'parse':
-                p = options.PydoctorConfigParser()
-            else:
-                p = options.get_parser()._config_file_parser
-            data = p.parse(io.StringIO(case['text']))
-            out = {'ok': pairs(data)}
+            out = {'ok': pairs(vp.parse(io.StringIO('')))}
         except BaseException as e:  # noqa
-            out = {'err': type(e).__name__ + ': ' + str(e)[:300]}
-    out['warnings'] = [str(w.message) for w in caught
-                       if not issubclass(w.category, (SyntaxWarning, DeprecationWarning))]
+            out = {'err': type(e).__name__ + ': ' + str(e)[:200]}
+    out['warnings'] = [str(w.message) for w in caught]
+    return out
+
+
+def run_quote(case):
+    from pydoctor import _configparser as C
+    t = case['t']
+    triple = bool(case.get('triple', True))
+    m = C._QUOTED_STR_REGEX.match(t)
+    out = {'dq': bool(m and m.group(1) is not None), 'sq': bool(m and m.group(2) is not None),
+           'tre': bool(C._TRIPLE_QUOTED_STR_REGEX.match(t))}
+    out['isq'] = bool(C.is_quoted(t, triple=triple))
+    with warnings.catch_warnings():
+        warnings.simplefilter('ignore')
+        try:
+            out['unq'] = [0, C.unquote_str(t, triple=triple)]
+        except ValueError:
+            out['unq'] = [1, '']
+        except BaseException as e:  # noqa
+            out['unq'] = [3, type(e).__name__]
+    return out
+
+
+def run_pyspec(case):
+    from ast import literal_eval
+    t = case['t']
+    out = {}
+    with warnings.catch_warnings():
+        warnings.simplefilter('ignore')
+        try:
+            v = literal_eval(t)
+            out['lit'] = [0, v] if isinstance(v, str) else [2, '']
+            out['list'] = [0, [str(i) for i in v]] if isinstance(v, list) else [2, []]
+        except BaseException:  # noqa
+            out['lit'] = [1, '']
+            out['list'] = [1, []]
+    out['repr'] = repr(t)
+    out['printable'] = sorted(set(ord(c) for c in t if ord(c) >= 128 and c.isprintable()))
     return out
 
 
@@ -123,12 +221,19 @@ def main():
     cases = json.load(sys.stdin)
     res = []
     for c in cases:
-        if c['k'] in ('e2e', 'ns'):
+        k = c['k']
+        if k in ('e2e', 'ns'):
             res.append(run_e2e(c))
-        elif c['k'] in ('parse', 'validate'):
+        elif k in ('ini', 'toml'):
             res.append(run_parse(c))
+        elif k == 'validate':
+            res.append(run_validate(c))
+        elif k == 'quote':
+            res.append(run_quote(c))
+        elif k == 'pyspec':
+            res.append(run_pyspec(c))
         else:
-            raise SystemExit('unknown case kind %r' % (c['k'],))
+            raise SystemExit('unknown case kind %r' % (k,))
     json.dump(res, sys.stdout)
 
 
